@@ -1,5 +1,6 @@
 import runner as R
 from props import *
+import C04_more
 
 MANIFEST = dict(
     text="Machines have no state outside init, so every subscription of a machine-modelled pipeline is the same run (resubscribe_same, subs_le_one); whether that is the right model of each Go "
@@ -15,6 +16,7 @@ def check(ctx):
     rows = R.run_kind(ctx, 'reuse')
     R.compare(ctx, rows, proj_all, 'C12 re-subscription / re-application of one operator value',
               nontrivial=lambda c, gd: 'N' in c and gd.get('t1', '-') != '-')
+    C04_more.parts_C12(ctx)
     # static known findings re-derived from the regenerated table
     names = {r['Name']: r for r in catalogue()}
     for (op, var), what in {('MergeMapIWithContext', 'i'): 'index variable i is declared in the application scope: a second subscription continues counting (confirmed on the real code: [0 1] then [2 3])',
